@@ -72,6 +72,9 @@ pub struct BuiltSpec {
     pub version: String,
     pub qualifiers: Vec<(String, String)>,
     pub subpath: String,
+    /// After all qualifiers are in: `without_qualifier` of the i-th one (modulo).
+    #[serde(default)]
+    pub drop_qualifier: Option<usize>,
 }
 
 #[derive(Clone, Debug, PartialEq, Eq, Serialize, Deserialize)]
@@ -800,7 +803,10 @@ where
                 for (k, v) in &b.qualifiers {
                     builder = builder.and_then(|bb| bb.with_qualifier(k.as_str(), v.as_str()).ok());
                 }
-                let Some(builder) = builder else { continue };
+                let Some(mut builder) = builder else { continue };
+                if let (Some(i), false) = (b.drop_qualifier, b.qualifiers.is_empty()) {
+                    builder = builder.without_qualifier(b.qualifiers[i % b.qualifiers.len()].0.as_str());
+                }
                 let built = guarded(move || builder.build().ok()).map_err(|p| violation!("C16.panic_in_build", "building {b:?} panicked: {p}"))?;
                 let Some(p) = built else { continue };
                 let canon = guarded(|| p.to_string()).map_err(|e| violation!("C16.panic_in_display", "to_string() of the PURL built from {b:?} panicked: {e}"))?;
@@ -1328,6 +1334,7 @@ impl Sim for C16 {
                     version: c.version,
                     qualifiers: c.qualifiers,
                     subpath: if rng.chance(1, 6) { (*rng.pick(&["a/./b", "../a", "a//b"])).to_owned() } else { c.subpath.join("/") },
+                    drop_qualifier: if rng.chance(1, 4) { Some(rng.below(4)) } else { None },
                 })
             } else if roll < 9 {
                 DocSpec::RawString { s: gen::any_input(&mut rng, known), json_seed: if rng.chance(1, 2) { 0 } else { rng.subseed() } }
